@@ -136,8 +136,9 @@ SPEC = {
     ],
     "assumptions": [
         "names: every global/function/parameter keeps a distinct Metal name (C15); the model works on indices",
-        "the _partial theorems exclude default-argument expressions and global initialisers, which the real analysis "
-        "does not visit (4 listed findings reproduce the consequences on the real code)",
+        "'needs' counts default-argument expressions and global initialisers (reading agreed after fixes 2c8592f/1d760f5); "
+        "threaded_exactly assumes every mention sits at a place gather_usage_* visits (AllSeen; all_positions_descended "
+        "discharges it for the generator's 32 positions) and the type checker's guarantee that omitted arguments have defaults",
         "expression/statement semantics of the emitted Metal (the gen_sem half of C02, shared with C01) is outside this model",
     ],
 }
